@@ -107,6 +107,9 @@ THEOREMS = [
     "Nix.C12.set_attr_refused_unchanged",
     "Nix.C12.data_array_label_accepted",
     "Nix.C12.set_attr_text_check_counterexample",
+    "Nix.Guarded.history_skips_refused",
+    "Nix.C12.role_history_skips_refused",
+    "Nix.C12.attr_history_skips_refused",
 ]
 ASSUMPTIONS = [
     "uuid4 ids are drawn from an abstract fresh supply; no link of the file is named like an id not yet drawn "
@@ -228,7 +231,10 @@ MANIFEST = {
                   "(5c) single-valued attributes (Pure/AttrWrite.lean on Generated/AttrOrder.lean: the 21 setters that end in "
                   "set_attr, found in the source, set_attr inlined, one list for None and one for a value): attr_sound + "
                   "attr_setters_safe + attr_setter_refused_unchanged - every setter, every value, attribute present or "
-                  "absent: refused => attribute and updated_at unchanged; set_attr_text_check_counterexample proves the "
+                  "absent: refused => attribute and updated_at unchanged; history_skips_refused (generic: on a system whose readers "
+                  "see the whole state a history of disciplined calls ends where the history of its accepted calls ends) "
+                  "with the instances role_history_skips_refused / attr_history_skips_refused - refusals injected at any "
+                  "point of any history of assignments; set_attr_text_check_counterexample proves the "
                   "set_attr of before nixio df56e57 wrong (h5py removes the previous value before it refuses a text). "
                   "(6) DataSet.append / write_direct / __setitem__ / data_extent: append_refused_unchanged and "
                   "data_step_refused_unchanged restate, on the definitions C01 compiles from data_set.py, that a raised step "
@@ -1487,6 +1493,17 @@ def _catalogue():
             add("%s:%s" % (lab, vlab), lambda c, key=key, attr=attr, vkey=vkey: _set(c[key], attr, c[vkey]), retry)
         if attr in ("positions", "data"):
             add("%s:none" % lab, lambda c, key=key, attr=attr: _set(c[key], attr, None), retry)
+    # a vector of texts stored as an attribute (a2e6437): the units of a frame that HAS units
+    has_units = lambda c: _set(c["df"], "units", ["mV", "s"])       # noqa
+    add("DataFrame.units:text-with-nul (frame with units)", lambda c: _set(c["df"], "units", ["a\x00b", "s"]),
+        lambda c: _set(c["df"], "units", ["kV", "ms"]), setup=has_units)
+    add("DataFrame.units:text-not-encodable-ndarray (frame with units)",
+        lambda c: _set(c["df"], "units", np.array(["a\udc80b", "s"], dtype=object)), setup=has_units)
+    add("RangeDimension(linked to frame column).unit:text-with-nul",
+        lambda c: _set(c["rd"], "unit", "a\x00b"), lambda c: _set(c["rd"], "unit", "kV"),
+        setup=lambda c: (has_units(c), c["rd"].link_data_frame(c["df"], 0)))
+    add("SetDimension(linked to frame column).link_data_frame:units kept", lambda c: c["sl"].link_data_frame(c["df"], 7),
+        setup=has_units)
     # open finding: a dimension is linked to an object of another file (refused by HDF5 after the link group was built)
     add("Dimension.link:object-of-another-file:linked-range-array", lambda c: c["rl"].link_data_array(c["ofd"], [-1]),
         lambda c: c["rl"].link_data_array(c["dx"], [-1]))
